@@ -12,6 +12,7 @@ import Driver.Wts
 import Driver.Mlpg
 import Driver.Voc
 import Driver.Pipe
+import Driver.Eng
 
 open Drv
 
@@ -21,6 +22,10 @@ def dispatch (op : String) : Option (P Verdict) :=
   | "vset" => some Drv.Wts.runVset
   | "wset" => some Drv.Wts.runWset
   | "wavg" => some Drv.Wts.runWavg
+  | "thr" => some Drv.Eng.runThr
+  | "ht" => some Drv.Eng.runHt
+  | "vol" => some Drv.Eng.runVol
+  | "gvv" => some Drv.Eng.runGvv
   | "pipe" => some Drv.Pipe.run
   | "voc" => some Drv.Voc.run
   | "mlpg" => some Drv.Mlpg.run
